@@ -13,8 +13,10 @@ Every alphabet also holds the exceptional-exit requests of its class (empty-resu
 that raise on a fresh object as well): state that is restored on the normal exit only is invisible otherwise.
 
 Sub-systems: Background2D (all read orders, run to fixpoint), the six pixel apertures (setters interleaved
-with reads), RadialProfile / CurveOfGrowth (reads interleaved with normalize / unnormalize), PSFPhotometry
-and IterativePSFPhotometry (call sequences), the three star finders, Ellipse.fit_image, LocalBackground,
+with reads and with in-place writes of the caller into the positions container it handed over), RadialProfile /
+CurveOfGrowth (reads interleaved with normalize / unnormalize), PSFPhotometry and IterativePSFPhotometry (call
+sequences and the result-consuming requests make_model_image / make_residual_image that follow a call; PSF models
+with and without a free shape parameter), the three star finders, Ellipse.fit_image, LocalBackground,
 GriddedPSFModel evaluation histories.
 """
 import itertools
@@ -46,13 +48,34 @@ RULE = ('per class and configuration: BFS over ALL histories of the listed reque
         '-- and because all histories are enumerated each of them is followed by every request; for Ellipse the '
         'alphabet is the full product (4 exit paths of fit_image) x (7 per-call overrides of the geometry '
         'settings) for a default and a non-default geometry.  Which exit a request really takes is measured on '
-        'the fresh object (counters *_calls_exit_*, *_calls_straight_after_exit_*, profile_normalize_exit_*)')
+        'the fresh object (counters *_calls_exit_*, *_calls_straight_after_exit_*, profile_normalize_exit_*).  '
+        'Apertures: positions are handed over as a (nested) list and as a float64 ndarray (constructor and setter), '
+        'and the alphabet holds the requests "the caller writes in place into the container it handed over last" '
+        '(shift of all values / one element); the oracle stays the fresh aperture built from the values AS PASSED.  '
+        'Photometry: once a history holds a __call__, the result-consuming requests make_model_image / '
+        'make_residual_image x include_localbkg {False, True} x psf_shape are requests of the history (up to two per '
+        'history, while it holds one call -- thorough: one or two calls; after longer call histories they are read '
+        'in one fixed sweep in every distinct state); each must equal what a fresh object reports after the LAST __call__ of the history and '
+        'that single request ([call, request] alone is that fresh observation: counted trivial); the configurations '
+        'with a local-background estimator get scenes with a constant sky, so the local backgrounds are far from '
+        'zero (counter psf_localbkg_nonzero_calls); configurations whose PSF model has a FREE shape parameter '
+        '(fwhm) are called with init tables with and without a column for it, with and without position bounds '
+        '(xy_bounds=None is the only setting in which a one-source group is fitted without bounds being written)')
 ASSUMPTIONS = ['a state is the instance __dict__ (plus, for StarFinder/Ellipse, the caller-owned kernel/geometry it '
                'aliases); equal digests have equal futures',
                'the differential oracle trusts a freshly constructed object for a single request (single-request '
                'correctness is the business of C01-C20, not of C09)',
                'numpy, scipy (zoom, splines, least_squares) and astropy (modeling, tables, units, SigmaClip) are trusted',
                'every call gets its own copy of the input arrays/tables: mutation of caller inputs is C10, not C09',
+               'caller-side in-place writes are explored for aperture positions only (an aperture is documented as '
+               'defined by the values given); objects documented to hold a reference to the caller\'s data '
+               '(Background2D, profiles, Ellipse image, GriddedPSFModel data) are not subjected to them',
+               'a result-consuming request (make_model_image / make_residual_image) that leaves the complete instance '
+               '__dict__ digest unchanged is not expanded further (equal digests have equal futures): on a tree where '
+               'rendering is read-only the histories [call, request, request\'] are covered by [call, request\']',
+               'make_residual_image is given the data of the last __call__ (its documented use)',
+               'the configuration snapshot of the photometry classes digests the psf_model by class and by every '
+               'parameter\'s value / fixed / bounds / tied (snapshot.digest of an astropy Model), not by identity',
                'a request that raises on a FRESH object is compared by exception type only (whether it should raise is '
                'not C09\'s business); what C09 demands is that the requests after it answer like a fresh object and '
                'that the configuration is unchanged',
@@ -258,10 +281,41 @@ def _ap_read(ap, name, img):
     return v
 
 
+# Representation of the positions handed to the constructor / the ``positions`` setter: a (nested) list or a
+# float64 ndarray (the one container the aperture could keep a reference to without converting it).
+AP_REPS = ['list', 'ndarray']
+# In-place writes of the CALLER into the container it handed over last (constructor or positions setter): the
+# aperture is a function of the values AS PASSED, so nothing it reports may move.
+AP_CALLER_WRITES = ['shift-all', 'first-element']
+
+
+def _ap_container(val, rep):
+    nested = isinstance(val[0], tuple)
+    if rep == 'ndarray':
+        return np.array(val, dtype=np.float64)
+    return [list(p) for p in val] if nested else list(val)
+
+
+def _ap_caller_write(c, how):
+    if isinstance(c, np.ndarray):
+        if how == 'shift-all':
+            c += 1.75
+        else:
+            c.flat[0] = 9.25
+        return
+    rows = c if isinstance(c[0], list) else [c]
+    if how == 'shift-all':
+        for row in rows:
+            row[:] = [v + 1.75 for v in row]
+    else:
+        rows[0][0] = 9.25
+
+
 class ApSystem:
-    def __init__(self, cls, seed):
+    def __init__(self, cls, seed, ctor='list'):
         self.cls = cls
         self.name = cls
+        self.ctor = ctor
         self.attrs = AP_CLASSES[cls]
         self.img = _ap_image(seed)
         self._fresh = {}
@@ -271,27 +325,33 @@ class ApSystem:
         import photutils.aperture as pa
         return getattr(pa, self.cls)
 
-    def _build(self, vals):
+    def _build(self, vals, rep='list', keep=None):
         kw = {k: v for k, v in vals.items()}
-        pos = kw.pop('positions')
-        pos = [list(p) for p in pos] if isinstance(pos[0], tuple) else list(pos)
+        pos = _ap_container(kw.pop('positions'), rep)
+        if keep is not None:
+            keep['caller'] = pos
         return self._cls()(pos, **kw)
 
     def initial(self):
         vals = {'positions': AP_POS[0]}
         vals.update({k: v[0] for k, v in self.attrs.items()})
-        st = St(self._build(vals))
+        aux = {}
+        st = St(self._build(vals, self.ctor, aux))
+        st.aux.update(aux)
         st.aux['vals'] = vals
         return st
 
     def ops(self, st):
         ops = [('set', 'positions', i) for i in range(len(AP_POS))]
+        ops += [('set', 'positions', i, 'ndarray') for i in range(len(AP_POS))]
         for a, vs in self.attrs.items():
             ops += [('set', a, i) for i in range(len(vs))]
         ops += [('read', r) for r in AP_READS]
         # rejected assignments (documented validation errors of the attribute descriptors): afterwards every read
         # must still answer for the values in force before -- the exceptional exit of a setter
         ops += [('set_invalid', 'positions', 'three-numbers'), ('set_invalid', next(iter(self.attrs)), 'negative')]
+        # the caller re-uses (writes into) the container it passed for the positions last
+        ops += [('caller_writes', how) for how in AP_CALLER_WRITES]
         return ops
 
     def canon(self, st):
@@ -311,19 +371,39 @@ class ApSystem:
             self._fresh[k] = observe(lambda: setattr(ap, attr, bad))
         return self._fresh[k]
 
+    def _site(self, st, name):
+        # whatever differs after an in-place write of the caller is ONE defect (the aperture shares the caller's
+        # buffer): one key per class, the read concerned is named in the detail
+        if st.aux.get('caller_wrote'):
+            return f'{self.cls}.positions:after-caller-writes-into-its-array'
+        return f'{self.cls}.{name}'
+
     def apply(self, st, op, report):
         op = tuple(op)
         st.hist.append(op)
         if op[0] == 'set':
-            _, attr, i = op
+            attr, i = op[1], op[2]
+            rep = op[3] if len(op) > 3 else 'list'
             val = AP_POS[i] if attr == 'positions' else self.attrs[attr][i]
-            r = observe(lambda: setattr(st.obj, attr, [list(p) for p in val] if attr == 'positions' and isinstance(val[0], tuple)
-                                        else (list(val) if attr == 'positions' else val)))
+            given = _ap_container(val, rep) if attr == 'positions' else val
+            r = observe(lambda: setattr(st.obj, attr, given))
             if isinstance(r, Raised):
                 report('setter-raises', f'{self.cls}.{attr}', repr(r), 'no exception', 'assigning a valid value raised')
                 return False
             st.aux['vals'] = dict(st.aux['vals'], **{attr: val})
+            if attr == 'positions':
+                st.aux['caller'] = given
+                st.aux['caller_wrote'] = False
+                if rep == 'ndarray':
+                    self.counters['positions_given_as_ndarray'] = self.counters.get('positions_given_as_ndarray', 0) + 1
             return True
+        if op[0] == 'caller_writes':
+            c = st.aux['caller']
+            _ap_caller_write(c, op[1])
+            st.aux['caller_wrote'] = True
+            ck = 'caller_writes_into_' + type(c).__name__
+            self.counters[ck] = self.counters.get(ck, 0) + 1
+            return True             # the attribute values in force (as passed) are unchanged
         if op[0] == 'set_invalid':
             _, attr, what = op
             bad = [1.0, 2.0, 3.0] if what == 'three-numbers' else -1.0
@@ -344,8 +424,8 @@ class ApSystem:
                     (name, st.aux['vals']))
         c = compare(obs, exp)       # bit-exact: same kernels on the same parameter values
         if c:
-            report('read-' + c[0], f'{self.cls}.{name}', short(obs, 300), short(exp, 300),
-                   c[1] + f' [attribute values {st.aux["vals"]}]')
+            report('read-' + c[0], self._site(st, name), short(obs, 300), short(exp, 300),
+                   c[1] + f' [reading {name}; attribute values as passed {st.aux["vals"]}]')
         return True
 
     def invariant(self, st, report):
@@ -354,18 +434,19 @@ class ApSystem:
             exp = self.fresh(st.aux['vals'], name)
             c = compare(obs, exp)
             if c:
-                report('read-' + c[0], f'{self.cls}.{name}', short(obs, 300), short(exp, 300),
-                       c[1] + f' [invariant sweep; attribute values {st.aux["vals"]}; cached {sorted(vars(st.obj))}]')
+                report('read-' + c[0], self._site(st, name), short(obs, 300), short(exp, 300),
+                       c[1] + f' [reading {name} in the invariant sweep; attribute values as passed {st.aux["vals"]}; '
+                       f'cached {sorted(vars(st.obj))}]')
         # the public parameters read back what was assigned
         for a, v in st.aux['vals'].items():
             got = getattr(st.obj, a)
             got = getattr(got, 'value', got)
             if not np.array_equal(np.asarray(got, float), np.asarray(v, float)):
-                report('attribute-readback', f'{self.cls}.{a}', short(got), short(v))
+                report('attribute-readback', self._site(st, a), short(got), short(v), f'reading back {a}')
 
     def nontrivial(self, hist):
         kinds = [h[0] for h in hist]
-        return ('set' in kinds or 'set_invalid' in kinds) and 'read' in kinds
+        return ('set' in kinds or 'set_invalid' in kinds or 'caller_writes' in kinds) and 'read' in kinds
 
     def outcome(self, st):
         return self.canon(st)
@@ -587,6 +668,10 @@ def _psf_init(seed, which, kind):
         return Table({'x': [-40.0] + x[1:], 'y': y, 'flux': f, 'group_id': [1] * (len(x) - 1) + [2]})
     if kind == 'xyf*u':
         return QTable({'x': x, 'y': y, 'flux': np.array(f) * u.Jy})
+    if kind == 'xyf+fwhm':      # initial values for the free shape parameter, all different from the model's 2.4
+        return Table({'x': x, 'y': y, 'flux': f, 'fwhm': [3.1, 2.0, 2.9][:len(x)]})
+    if kind == 'xy+fwhm':
+        return Table({'x': x, 'y': y, 'fwhm': [2.0, 2.9, 3.1][:len(x)]})
     raise AssertionError(kind)
 
 
@@ -614,6 +699,30 @@ PSF_CALLS = [
 #   (the first group is already fitted, per-call results half filled);
 #   both raising requests x {without, with} a group_id column (the argument that makes a call ignore the grouper)
 ITER_CALLS = [PSF_CALLS[i] for i in (0, 1, 2, 3, 5, 10, 7, 11, 12, 13)]
+# calls of the configurations whose PSF model has a FREE shape parameter (fwhm.fixed = False): the init table
+# {has, has not} a column for that parameter (a call without the column takes the initial value from the model
+# given to the constructor) x {scene A, scene B} x {with, without flux column}, the finder, and every exit class
+FREE_CALLS = [PSF_CALLS[i] for i in (0, 1, 2, 3, 10, 7, 11)] + [
+    ('A', False, False, False, 'xyf+fwhm'),
+    ('B', False, False, False, 'xyf+fwhm'),
+    ('A', False, False, False, 'xy+fwhm'),
+    ('A', False, False, False, 'xy'),
+]
+# Result-consuming requests: (method, include_localbkg, psf_shape).  They are requests of the history like any
+# call, enabled once the history holds a __call__; each must equal what a fresh object reports after the LAST
+# __call__ of the history and that single request (the rendered images are functions of the constructor
+# arguments, the arguments of the last __call__ and their own arguments).
+PSF_SHAPES = {'7x7': (7, 7), '5x9': (5, 9)}
+PSF_RESULT_OPS = [('model', False, '7x7'), ('model', True, '7x7'), ('resid', False, '7x7'), ('resid', True, '7x7'),
+                  ('model', False, '5x9'), ('model', True, '5x9')]
+# read in this fixed order in every distinct state (invariant sweep), compared with a fresh object that was given
+# the last __call__ and the same sweep: covers the result requests after histories of >= 2 calls in the quick tier
+PSF_SWEEP = [('model', False, '7x7'), ('resid', False, '7x7'), ('model', True, '7x7'), ('resid', True, '7x7')]
+PSF_MAX_RESULT_OPS = 2      # result requests per history (a third one cannot see more than the second)
+# constant sky added to every scene of the configurations with a local-background estimator: the estimated local
+# backgrounds are then far from zero (about PSF_SKY, measured: counter psf_localbkg_nonzero_calls), so that an
+# image rendered with and without them differs by ~PSF_SKY, not by the noise of a zero-mean annulus
+PSF_SKY = 4.0
 PSF_CONFIGS = [
     {'cls': 'PSFPhotometry', 'grouper': True, 'localbkg': False},
     {'cls': 'PSFPhotometry', 'grouper': False, 'localbkg': False},
@@ -622,7 +731,25 @@ PSF_CONFIGS = [
     {'cls': 'IterativePSFPhotometry', 'grouper': True, 'localbkg': False, 'mode': 'new'},
     {'cls': 'IterativePSFPhotometry', 'grouper': False, 'localbkg': True, 'mode': 'new'},
     {'cls': 'IterativePSFPhotometry', 'grouper': True, 'localbkg': True, 'mode': 'all'},
+    # 'free': the PSF model has a free parameter besides x, y, flux (fwhm.fixed = False);
+    # 'xy_bounds': 'none' -> constructed without position bounds (all others: xy_bounds=(2, 2))
+    {'cls': 'PSFPhotometry', 'grouper': False, 'localbkg': False, 'free': 'fwhm', 'xy_bounds': 'none'},
+    {'cls': 'PSFPhotometry', 'grouper': True, 'localbkg': True, 'free': 'fwhm', 'xy_bounds': 'none'},
+    {'cls': 'IterativePSFPhotometry', 'grouper': True, 'localbkg': False, 'mode': 'new', 'free': 'fwhm',
+     'xy_bounds': 'none'},
 ]
+# thorough tier: the remaining corners of {free shape parameter} x {position bounds}
+PSF_CONFIGS_THOROUGH = PSF_CONFIGS + [
+    {'cls': 'PSFPhotometry', 'grouper': False, 'localbkg': False, 'xy_bounds': 'none'},
+    {'cls': 'PSFPhotometry', 'grouper': True, 'localbkg': False, 'free': 'fwhm'},
+    {'cls': 'IterativePSFPhotometry', 'grouper': False, 'localbkg': True, 'mode': 'all', 'xy_bounds': 'none'},
+    {'cls': 'IterativePSFPhotometry', 'grouper': False, 'localbkg': True, 'mode': 'all', 'free': 'fwhm',
+     'xy_bounds': 'none'},
+]
+
+
+def psf_configs(tier):
+    return PSF_CONFIGS_THOROUGH if tier == 'thorough' else PSF_CONFIGS
 
 
 class PsfSystem(CallSystem):
@@ -632,11 +759,14 @@ class PsfSystem(CallSystem):
     rtol = 1e-9
     atol = 1e-9
 
-    def __init__(self, cfg, seed):
+    def __init__(self, cfg, seed, call_depth=2, result_after_calls=1):
         super().__init__()
         self.cfg = cfg
         self.seed = seed
         self.name = cfg['cls']
+        self.call_depth = call_depth
+        self.result_after_calls = result_after_calls
+        self._fresh_obj = {}
 
     def make(self):
         from photutils.background import LocalBackground
@@ -644,19 +774,38 @@ class PsfSystem(CallSystem):
         from photutils.psf import CircularGaussianPRF, IterativePSFPhotometry, PSFPhotometry, SourceGrouper
         c = self.cfg
         psf = CircularGaussianPRF(fwhm=2.4)
+        if c.get('free') == 'fwhm':
+            psf.fwhm.fixed = False
         kw = dict(finder=DAOStarFinder(6.0, 2.4), grouper=SourceGrouper(5.0) if c['grouper'] else None,
                   localbkg_estimator=LocalBackground(4.0, 7.0, _median_background()) if c['localbkg'] else None,
-                  aperture_radius=3.0, xy_bounds=(2.0, 2.0))
+                  aperture_radius=3.0, xy_bounds=None if c.get('xy_bounds') == 'none' else (2.0, 2.0))
         if c['cls'] == 'PSFPhotometry':
             return PSFPhotometry(psf, (5, 5), **kw)
         return IterativePSFPhotometry(psf, (5, 5), maxiters=2, mode=c['mode'], sub_shape=(7, 7), **kw)
 
     def calls(self):
-        base = PSF_CALLS if self.cfg['cls'] == 'PSFPhotometry' else ITER_CALLS
+        if self.cfg.get('free'):
+            base = FREE_CALLS
+        else:
+            base = PSF_CALLS if self.cfg['cls'] == 'PSFPhotometry' else ITER_CALLS
         return [('call',) + c for c in base]
 
+    def ops(self, st):
+        """calls while the history holds fewer than ``call_depth`` of them; the result-consuming requests once it
+        holds 1..``result_after_calls`` calls (histories of more calls: invariant sweep) and fewer than
+        PSF_MAX_RESULT_OPS of them"""
+        hist = st.hist if st is not None else []
+        ncall = sum(1 for h in hist if h[0] == 'call')
+        nres = len(hist) - ncall
+        out = []
+        if ncall < self.call_depth:
+            out += self.calls()
+        if 1 <= ncall <= self.result_after_calls and nres < PSF_MAX_RESULT_OPS:
+            out += list(PSF_RESULT_OPS)
+        return out
+
     def opname(self, op):
-        return '__call__'
+        return {'call': '__call__', 'model': 'make_model_image', 'resid': 'make_residual_image'}[op[0]]
 
     def expected_invalid(self, op):
         # a source without overlap with the image / a completely masked source: documented ValueErrors
@@ -673,6 +822,9 @@ class PsfSystem(CallSystem):
 
     def config(self, obj):
         p = self._core(obj)
+        # psf_model: snapshot.digest of an astropy Model = class + every parameter's VALUE, fixed flag, bounds and
+        # tie (not the identity): a call that writes initial or fitted values into the constructor's model is a
+        # configuration change
         out = {'grouper': vars(p.grouper) if p.grouper is not None else None,
                'finder': {k: v for k, v in vars(p.finder).items()} if p.finder is not None else None,
                'fit_shape': p.fit_shape, 'xy_bounds': p.xy_bounds, 'aperture_radius': p.aperture_radius,
@@ -684,10 +836,13 @@ class PsfSystem(CallSystem):
             out.update({'maxiters': obj.maxiters, 'mode': obj.mode, 'sub_shape': obj.sub_shape})
         return out
 
-    def do(self, obj, op):
+    def inputs(self, op):
+        """fresh copies of the arguments of one __call__ request"""
         import astropy.units as u
         _, which, units, mask, error, init = op
         img, _ = _psf_scene(self.seed, which)
+        if self.cfg['localbkg']:
+            img = img + PSF_SKY
         shape = img.shape
         m = None
         if mask:
@@ -701,18 +856,128 @@ class PsfSystem(CallSystem):
         if e is not None and units:
             e = e * u.Jy
         ip = _psf_init(self.seed, which, init) if init else None
+        return data, m, e, ip
+
+    def do(self, obj, op):
+        data, m, e, ip = self.inputs(op)
         tbl = obj(data, mask=m, error=e, init_params=ip)
         core = self._core(obj)
         obs = {'table': tbl, 'init_params': core.init_params, 'fit_params': core.fit_params,
                'finder_results': core.finder_results, 'data_unit': str(core.data_unit),
                'fit_info_keys': sorted(core.fit_info) if isinstance(core.fit_info, dict) else None,
                'fit_param_errs': core.fit_info.get('fit_param_errs') if isinstance(core.fit_info, dict) else None}
-        if tbl is not None:
-            obs['model_image'] = obj.make_model_image(shape, psf_shape=(7, 7), include_localbkg=True)
-            obs['residual'] = obj.make_residual_image(data, psf_shape=(7, 7))
         if core is not obj:
             obs['n_fit_results'] = len(obj.fit_results)
         return obs
+
+    # ---- result-consuming requests ------------------------------------------------------------------------
+    @staticmethod
+    def last_call(hist):
+        for h in reversed(hist):
+            if h[0] == 'call':
+                return tuple(h)
+        return None
+
+    def do_result(self, obj, op, last):
+        kind, incl, shp = op
+        data = self.inputs(last)[0]
+        if kind == 'model':
+            return obj.make_model_image(data.shape, psf_shape=PSF_SHAPES[shp], include_localbkg=bool(incl))
+        return obj.make_residual_image(data, psf_shape=PSF_SHAPES[shp], include_localbkg=bool(incl))
+
+    def fresh(self, op):
+        k = repr(op)
+        if k not in self._fresh:
+            obj = self.make()
+            self._fresh[k] = observe(lambda: self.do(obj, op))
+            self._fresh_obj[k] = obj        # the fresh object after exactly this call: used once, by fresh_sweep
+        return self._fresh[k]
+
+    def fresh_result(self, last, op):
+        """what a fresh object reports for ``op`` straight after the call ``last``"""
+        k = repr((last, op))
+        if k not in self._fresh:
+            obj = self.make()
+            observe(lambda: self.do(obj, last))
+            self._fresh[k] = observe(lambda: self.do_result(obj, op, last))
+        return self._fresh[k]
+
+    def sweep(self, obj, last):
+        return [observe(lambda r=r: self.do_result(obj, r, last)) for r in PSF_SWEEP]
+
+    def fresh_sweep(self, last):
+        k = repr((last, 'sweep'))
+        if k not in self._fresh:
+            self.fresh(last)
+            obj = self._fresh_obj.pop(repr(last), None)
+            if obj is None:
+                obj = self.make()
+                observe(lambda: self.do(obj, last))
+            self._fresh[k] = self.sweep(obj, last)
+        return self._fresh[k]
+
+    def _report_config(self, st, op, dirty_before, report, otag=''):
+        for k in self.dirty(st.obj):
+            if k not in dirty_before:
+                report('config-changed', f'{self.owner(k)}.{k}' + (f':after-{otag}' if otag else ''),
+                       short(self.config(st.obj)[k], 200), 'the value given to the constructor',
+                       f'{self.opname(op)} changed the configuration attribute {k!r} of the instance')
+
+    def apply(self, st, op, report):
+        op = tuple(op) if isinstance(op, list) else op
+        if op[0] == 'call':
+            ok = super().apply(st, op, report)
+            exp = self.fresh(op)
+            if not isinstance(exp, Raised) and exp['table'] is not None and self.cfg['localbkg']:
+                lb = np.asarray(getattr(exp['init_params']['local_bkg'], 'value', exp['init_params']['local_bkg']))
+                if np.all(np.abs(lb) > 0.5 * PSF_SKY):
+                    self.counters['localbkg_nonzero_calls'] = self.counters.get('localbkg_nonzero_calls', 0) + 1
+            return ok
+        last = self.last_call(st.hist)
+        dirty_before = self.dirty(st.obj)
+        obs = observe(lambda: self.do_result(st.obj, op, last))
+        first_hand = tuple(st.hist) == (last,)
+        st.hist.append(op)
+        k = repr((last, op))
+        if first_hand and k not in self._fresh:
+            # the history is exactly [call, request] on a freshly built object: this IS the fresh observation
+            self._fresh[k] = obs
+        exp = self.fresh_result(last, op)
+        self.counters['result_requests'] = self.counters.get('result_requests', 0) + 1
+        if isinstance(exp, Raised):     # no results to render (the last call raised or detected nothing)
+            self.counters['result_requests_without_results'] = self.counters.get('result_requests_without_results', 0) + 1
+        st.aux['prev_exit'] = ''
+        c = compare(obs, exp, self.rtol, self.atol)
+        if c:
+            report('call-' + c[0], self.site(op, dirty_before), short(obs, 300), short(exp, 300),
+                   c[1] + f' [oracle: fresh object, {last}, then {op}]')
+        self._report_config(st, op, dirty_before, report)
+        return True
+
+    def invariant(self, st, report):
+        last = self.last_call(st.hist)
+        if last is None:
+            return
+        dirty_before = self.dirty(st.obj)
+        obs = self.sweep(st.obj, last)
+        exp = self.fresh_sweep(last)
+        for r, o, e in zip(PSF_SWEEP, obs, exp):
+            c = compare(o, e, self.rtol, self.atol)
+            if c:
+                report('call-' + c[0], self.site(r, dirty_before), short(o, 300), short(e, 300),
+                       c[1] + f' [invariant sweep {PSF_SWEEP} after {list(st.hist)}; oracle: fresh object, {last}, '
+                       'then the same sweep]')
+                break
+        for k in self.dirty(st.obj):
+            if k not in dirty_before:
+                report('config-changed', f'{self.owner(k)}.{k}', short(self.config(st.obj)[k], 200),
+                       'the value given to the constructor',
+                       f'make_model_image / make_residual_image (sweep {PSF_SWEEP}) changed the configuration '
+                       f'attribute {k!r} of the instance')
+
+    def nontrivial(self, hist):
+        # [call, result request] alone is the fresh observation itself
+        return len(hist) >= 2 and not (len(hist) == 2 and hist[1][0] != 'call')
 
 
 # =========================================================================== star finders
@@ -1060,19 +1325,29 @@ SYSTEMS = {'bkg': BkgSystem, 'aperture': ApSystem, 'profile': ProfSystem, 'psf':
            'ellipse': EllipseSystem, 'localbkg': LocalBkgSystem, 'gridded': GriddedSystem}
 
 
-def make_system(kind, cfg, seed):
+PSF_CALL_DEPTH = {'quick': 2, 'thorough': 3}
+PSF_RESULT_AFTER = {'quick': 1, 'thorough': 2}      # result requests are enabled while the history holds <= this many calls
+
+
+def make_system(kind, cfg, seed, tier='quick'):
     if kind == 'aperture':
-        return ApSystem(cfg['cls'], seed)
+        return ApSystem(cfg['cls'], seed, ctor=cfg.get('ctor', 'list'))
+    if kind == 'psf':
+        return PsfSystem(cfg, seed, call_depth=PSF_CALL_DEPTH[tier], result_after_calls=PSF_RESULT_AFTER[tier])
     return SYSTEMS[kind](cfg, seed)
+
 
 
 def depth_of(kind, cfg, tier):
     """depth bound in requests (measured cost in the module report; Background2D runs to its fixpoint)"""
     th = tier == 'thorough'
     return {'bkg': BKG_DEPTH,
-            'aperture': 5 if th else 3,
+            # constructor given an ndarray: one request less (on a tree that copies the positions it reaches
+            # exactly the states of the list constructor, which are explored to the full depth)
+            'aperture': (4 if th else 2) if (cfg or {}).get('ctor') == 'ndarray' else (5 if th else 3),
             'profile': 6 if th else 4,
-            'psf': 3 if th else 2,
+            # __call__ requests per history + the result-consuming requests that may follow the first call
+            'psf': PSF_CALL_DEPTH[tier] + PSF_MAX_RESULT_OPS,
             'finder': 4 if th else 3,
             'ellipse': 2,          # a fit costs 0.3-10 s; the thorough tier widens the call alphabet instead
             'localbkg': 5 if th else 3,
@@ -1082,8 +1357,9 @@ def depth_of(kind, cfg, tier):
 def all_systems(tier):
     out = [('bkg', c) for c in bkg_configs(tier)]
     out += [('aperture', {'cls': c}) for c in AP_CLASSES]
+    out += [('aperture', {'cls': c, 'ctor': 'ndarray'}) for c in AP_CLASSES]
     out += [('profile', c) for c in PROF_CONFIGS]
-    out += [('psf', c) for c in PSF_CONFIGS]
+    out += [('psf', c) for c in psf_configs(tier)]
     out += [('finder', c) for c in SF_CONFIGS]
     out += [('ellipse', {'geometry': g}) for g in ELL_GEOMETRIES[tier]]
     out += [('localbkg', {}), ('gridded', {})]
@@ -1101,7 +1377,7 @@ def plan(tier, seed):
         if kind == 'bkg':
             units.append({'kind': kind, 'cfg': cfg, 'depth': depth, 'first': None})
             continue
-        sysm = make_system(kind, cfg, seed)
+        sysm = make_system(kind, cfg, seed, tier)
         if kind in ('psf', 'ellipse', 'profile', 'aperture'):
             n = len(_static_ops(sysm))
             for i in range(n):
@@ -1122,7 +1398,7 @@ def _static_ops(sysm):
 def run_unit(unit, tier, seed):
     acc = Acc()
     kind, cfg = unit['kind'], unit['cfg']
-    sysm = make_system(kind, cfg, seed)
+    sysm = make_system(kind, cfg, seed, tier)
     extra = {'sys': kind, 'cfg': cfg}
     first = unit['first']
     if kind == 'bkg':
@@ -1213,12 +1489,20 @@ def describe(tier, seed):
                              'axes': {k: len(v) for k, v in BKG_AXES.items()},
                              'reads': BKG_READS, 'bound': 'fixpoint of the reachable cache states (depth cap %d)' % BKG_DEPTH},
             'apertures': {'classes': list(AP_CLASSES), 'positions': 3, 'values_per_attribute': 2, 'reads': AP_READS,
+                          'positions_representations': AP_REPS,
+                          'constructor_representations': {r: depth_of('aperture', {'ctor': r}, tier) for r in AP_REPS},
+                          'caller_in_place_writes_into_positions_container': AP_CALLER_WRITES,
                           'rejected_assignments': ['positions = three numbers', 'first shape attribute = -1'],
                           'depth': depth_of('aperture', None, tier)},
             'profiles': {'configs': PROF_CONFIGS, 'mutators': ['normalize(max)', 'normalize(sum)', 'unnormalize()',
                                                                'normalize(bogus) -> ValueError'],
                          'depth': depth_of('profile', None, tier)},
-            'psf': {'configs': PSF_CONFIGS, 'calls': PSF_CALLS, 'iterative_calls': ITER_CALLS,
+            'psf': {'configs': psf_configs(tier), 'calls': PSF_CALLS, 'iterative_calls': ITER_CALLS,
+                    'free_shape_parameter_calls': FREE_CALLS,
+                    'result_requests': PSF_RESULT_OPS, 'result_requests_per_history': PSF_MAX_RESULT_OPS,
+                    'result_requests_enabled_while_calls_in_history_at_most': PSF_RESULT_AFTER[tier],
+                    'result_sweep_in_every_state': PSF_SWEEP, 'sky_of_localbkg_configs': PSF_SKY,
+                    'calls_per_history': PSF_CALL_DEPTH[tier],
                     'exceptional_calls': ['Z: finder detects nothing -> None',
                                           'off / off+gid: source without overlap -> ValueError before any fit',
                                           'cover x {xyf, xyf+gid}: last source completely masked -> ValueError inside '
